@@ -241,11 +241,25 @@ def quotedBody : Nat → List Tok → Except Err (List Ev × List Tok)
         pure (evs ++ evs2, r2)
       else .error (.syntax s!"token {t.name} inside a quoted word")
 
-/-- inline property `'[' id COLON COLON SPACE? id_group (SPACE id_group)* ']'` starting at `'['` -/
+/-- inline property `'[' id COLON COLON SPACE? id_group (SPACE id_group)* ']'` starting at `'['`.
+The key `id` is one id token, or a URL made of schema and domain only (`[https://host:: value]`; longer URLs
+as keys are outside the model: the split between `url_path` and `::` is decided by ALL(*) prediction). -/
 def inlineProp (fuel : Nat) (ts : List Tok) : Option (Except Err (List Ev × List Tok)) :=
   match ts with
   | o :: k :: c1 :: c2 :: rest =>
     if o.name == "'['" && isIdTok k && !isHttps k && c1.name == "COLON" && c2.name == "COLON" then
+      tail [k] [.id k.text] c1 c2 rest
+    else if o.name == "'['" && isHttps k then
+      match parseUrl (k :: c1 :: c2 :: rest) with
+      | some (u, d1 :: d2 :: rest') =>
+        if (u.drop 4).all (fun t => t.name == "ID" || t.name == "DOT") && d1.name == "COLON" && d2.name == "COLON" then
+          tail u [.id (textOf u), .link ("x:".toList ++ textOf u)] d1 d2 rest'
+        else none
+      | _ => none
+    else none
+  | _ => none
+where
+  tail (key : List Tok) (keyEvs : List Ev) (c1 c2 : Tok) (rest : List Tok) : Option (Except Err (List Ev × List Tok)) :=
       let inner := rest.takeWhile (fun t => t.name != "']'" && t.name != "NL")
       -- `SPACE? id_group (SPACE id_group)*`: every word of the value starts with an id token
       let body := match inner with | s :: r => if s.name == "SPACE" then r else inner | [] => []
@@ -257,16 +271,13 @@ def inlineProp (fuel : Nat) (ts : List Tok) : Option (Except Err (List Ev × Lis
       | c :: after =>
         if c.name == "']'" && wordsOk then
           -- the listener: `key, value = ctx.getText()[1:-1].split("::", maxsplit=1)`; value stripped
-          let txt := textOf (k :: c1 :: c2 :: inner)
+          let txt := textOf (key ++ c1 :: c2 :: inner)
           let idEvs := (inner.filter isIdTok).map (fun t => Ev.id t.text)
           match splitFirstDouble txt with
-          | some (a, b) => some (.ok (.id k.text :: .prop a (strip b) false :: idEvs, after))
+          | some (a, b) => some (.ok (keyEvs ++ .prop a (strip b) false :: idEvs, after))
           | none => some (.error (.crash "ValueError: inline prop split"))
         else none
       | [] => none
-    else none
-  | _ => none
-where
   /-- Python `s.split("::", maxsplit=1)` when `::` occurs -/
   splitFirstDouble (s : Str) : Option (Str × Str) :=
     let rec go : Str → Str → Option (Str × Str)
